@@ -471,6 +471,37 @@ def crate_fns(c):
     return [c.fn] + [g for g in c.facts.fns.values() if g.crate == "fastrace" and g.path not in skip]
 
 
+def rule_other_containers_emptied(ctx, c, rule):
+    """C08-R1b: every other growable container field of GlobalCollector (e.g. the one-cycle list of ids that finished
+    before their start) is cleared on every cycle that gets past the reporter check."""
+    fn = c.fn
+    adt = c.facts.adts.get(GC)
+    known = set(c.roles.values())
+    extra = [f for f in adt["variants"][0]["fields"] if f["name"] not in known and
+             re.search(r"^(alloc::vec::Vec|alloc::collections::\w+::\w+|std::collections::hash::(map::HashMap|set::HashSet))<", f["ty"])]
+
+    def is_none(o):
+        return any(v[0] == "call" and re.search(r"Option::<T>::is_none$", v[1]) for v in o.via) and \
+            (o.kind == "param" and ("." + c.roles["reporter"]) in o.path)
+    none_true = bool_cond_edges(fn, c.prov, is_none, True)
+    for f in extra:
+        name = f["name"]
+        empt = [b for b in fn.calls_re(r"::(clear|drain)$|core::mem::take$", cleanup=False)
+                if has_origin(c.prov.of_operand(fn, fn.term(b)["args"][0]), kind="param", key=1, path_suffix=("." + name,))]
+        grows = [b for b in fn.calls_re(r"::(push|push_back|insert|extend\w*)$", cleanup=False)
+                 if has_origin(c.prov.of_operand(fn, fn.term(b)["args"][0]), kind="param", key=1, path_suffix=("." + name,))]
+        ok, wit = fn.must_pass([0], empt, avoid_edges=none_true)
+        pre = fn.reach([0], avoid_blocks=empt)
+        early = [b for b in grows if b in fn.reach([0], avoid_edges=set(), avoid_blocks=[]) and any(
+            (a, d, l) in none_true for a in [0] for d, l in [])]
+        grow_before_check = [b for b in grows if any(fn.dominates(b, a) for a, _, _ in none_true)]
+        ctx.check(ok and bool(empt) and not grow_before_check, rule, HC, fn.loc(empt[0]) if empt else fn.span,
+                  "`%s` (%s) is emptied on every cycle past the reporter check, and is not grown before that check" % (name, f["ty"].split("<")[0].rsplit("::", 1)[-1]),
+                  "cleared at %s, grown at %s" % ([fn.loc(b) for b in empt], [fn.loc(b) for b in grows]),
+                  "a cycle can return at bb%s without emptying `%s`: it grows with the number of traces ever finished" % (wit, name),
+                  extra="other-" + name)
+
+
 def rule_map_ops(ctx, c, rule):
     """C08-R2: who grows and who shrinks the active-collector map."""
     fn = c.fn
